@@ -866,6 +866,9 @@ template <class T> int run_long(verif::Reader &r, Case &c, bool directed) {
         size_t l[3];
         for (int i = 0; i < 3; i++) { l[i] = r.u8(); l[i] |= (size_t)r.u8() << 8; if (l[i] > LONG_MAX_UNITS) l[i] = LONG_MAX_UNITS; }
         t.extra_n = (size_t)r.bits64();
+        // explicit content only: the lengths are cut to the units that are really there (a short input does not turn into 8 K zeros)
+        size_t avail = (r.pos < r.n ? r.n - r.pos : 0) / sizeof(T);
+        for (int i = 0; i < 3; i++) { if (l[i] > avail) l[i] = avail; avail -= l[i]; }
         for (int i = 0; i < 3; i++) t.v[i] = get_units<T>(r, l[i]);
         c.label("directed-triple");
     } else {
